@@ -20,7 +20,7 @@ var All = map[string]*Prop{}
 var Pending = map[string]string{}
 
 var commonAssume = []string{
-	"go/types and go/ssa (x/tools v0.29.0) model the analysed build configuration faithfully (quick: amd64; thorough: amd64, amd64 with the pure-Go build tags, 386)",
+	"go/types and go/ssa (x/tools v0.50.0, built with go1.26.8) model the analysed build configuration faithfully (quick: amd64; thorough: amd64, amd64 with the pure-Go build tags, 386)",
 	"nothing in /repo is executed; every verdict is a statement about the source as loaded at run time",
 }
 
